@@ -137,20 +137,55 @@ Definition resolve_offset (ofv : N) (ll : N) (rep : N * N * N) : res (N * (N * N
     else if idx =? 3 then Ok (r3, (r3, r1, r2))
     else check (1 <? r1) else Esafety @ 331; Ok (r1 - 1, (r1 - 1, r1, r2)).
 
-(* copy a match of length ml at distance off from the reversed history (newest byte first) *)
-Fixpoint copy_match (fuel : nat) (hist : list N) (off ml : N) : list N :=
-  match fuel with
-  | O => hist
-  | S f =>
-    if ml <=? off then firstn (N.to_nat ml) (skipn (N.to_nat (off - ml)) hist) ++ hist
-    else copy_match f (firstn (N.to_nat off) hist ++ hist) off (ml - off)
-  end.
-
+(* Decoder output state.  [x_hist] is dictionary content + everything decoded so far, newest byte first.
+   [x_marks] is an access accelerator: (length, suffix) pairs, newest first, where suffix is the history
+   as it was when it had that length (suffixes of an immutable list are shared, so a mark costs O(1)).
+   Invariant (proved in LzProofs.v): every mark (l, s) satisfies s = skipn (x_avail - l) x_hist. *)
 Record xstate := {
-  x_hist : list N;      (* dictionary content + everything decoded so far, newest first *)
-  x_avail : N;          (* number of bytes of history an offset may legally reach = dict + frame output *)
+  x_hist : list N;
+  x_marks : list (N * list N);
+  x_avail : N;          (* = length of x_hist = number of bytes an offset may legally reach *)
   x_pos : N;            (* bytes produced by the current frame *)
   x_blk : N }.          (* bytes produced by the current block *)
+
+Definition MARK_GAP : N := 512.
+
+Definition add_mark (marks : list (N * list N)) (len : N) (hist : list N) : list (N * list N) :=
+  match marks with
+  | [] => if MARK_GAP <=? len then [(len, hist)] else []
+  | (l, _) :: _ => if l + MARK_GAP <=? len then (len, hist) :: marks else marks
+  end.
+
+(* push n bytes (already reversed: newest first in [seg]) *)
+Definition push_rev (x : xstate) (seg : list N) (n : N) : xstate :=
+  let h := seg ++ x_hist x in
+  let a := x_avail x + n in
+  {| x_hist := h; x_marks := add_mark (x_marks x) a h; x_avail := a; x_pos := x_pos x + n; x_blk := x_blk x + n |}.
+(* push n bytes given oldest first *)
+Definition push_fwd (x : xstate) (seg : list N) (n : N) : xstate :=
+  let h := rev_append seg (x_hist x) in
+  let a := x_avail x + n in
+  {| x_hist := h; x_marks := add_mark (x_marks x) a h; x_avail := a; x_pos := x_pos x + n; x_blk := x_blk x + n |}.
+
+Fixpoint find_mark (marks : list (N * list N)) (target : N) (best : N * list N) : N * list N :=
+  match marks with
+  | [] => best
+  | (l, s) :: t => if target <=? l then find_mark t target (l, s) else best
+  end.
+
+(* the history as it was when it had length [target] (target <= x_avail) *)
+Definition suffix_at (x : xstate) (target : N) : list N :=
+  let '(l, s) := find_mark (x_marks x) target (x_avail x, x_hist x) in
+  skipn (N.to_nat (l - target)) s.
+
+(* copy a match of length ml at distance off; history is newest first *)
+Fixpoint copy_match (fuel : nat) (x : xstate) (off ml : N) : xstate :=
+  match fuel with
+  | O => x
+  | S f =>
+    if ml <=? off then push_rev x (firstn (N.to_nat ml) (suffix_at x (x_avail x - (off - ml)))) ml
+    else copy_match f (push_rev x (firstn (N.to_nat off) (x_hist x)) off) off (ml - off)
+  end.
 
 (* window rule of the format: an offset may exceed the frame position (reach the dictionary) only
    while the position is still inside the first window; otherwise it must be <= windowSize *)
@@ -163,12 +198,10 @@ Definition offset_ok (strict : bool) (window : N) (x : xstate) (off : N) : bool 
 Definition exec_seq (strict : bool) (window blockMax : N) (x : xstate) (lits : list N) (ll ml off : N)
   : res (xstate * list N) :=
   do sp <- of_opt (splitn (N.to_nat ll) lits) Esafety 340;
-  let x1 := {| x_hist := rev_append (fst sp) (x_hist x); x_avail := x_avail x + ll;
-               x_pos := x_pos x + ll; x_blk := x_blk x + ll |} in
+  let x1 := push_fwd x (fst sp) ll in
   check (offset_ok strict window x1 off) else Esafety @ 341;
   check (x_blk x1 + ml <=? blockMax) else Esafety @ 342;
-  let h := copy_match (S (N.to_nat (ml / off))) (x_hist x1) off ml in
-  Ok ({| x_hist := h; x_avail := x_avail x1 + ml; x_pos := x_pos x1 + ml; x_blk := x_blk x1 + ml |}, snd sp).
+  Ok (copy_match (S (N.to_nat (ml / off))) x1 off ml, snd sp).
 
 Definition ll_info (c : N) : N * N := (nthN spec_LL_base c 0, nthN spec_LL_bits c 0).
 Definition ml_info (c : N) : N * N := (nthN spec_ML_base c 0, nthN spec_ML_bits c 0).
@@ -216,12 +249,11 @@ Definition decode_cblock (strict : bool) (window blockMax : N) (e : entropy) (x 
   let rest := skipn (N.to_nat lused) src in
   do ns <- read_nbseq rest;
   let '(nbseq, rest1) := ns in
-  let x0 := {| x_hist := x_hist x; x_avail := x_avail x; x_pos := x_pos x; x_blk := 0 |} in
+  let x0 := {| x_hist := x_hist x; x_marks := x_marks x; x_avail := x_avail x; x_pos := x_pos x; x_blk := 0 |} in
   let finish (e' : entropy) (xs : xstate) (lits' : list N) (modes : N) (sqs : list seq) :=
       let nl := lenN lits' in
       check (x_blk xs + nl <=? blockMax) else Esafety @ 361;
-      let xf := {| x_hist := rev_append lits' (x_hist xs); x_avail := x_avail xs + nl;
-                   x_pos := x_pos xs + nl; x_blk := x_blk xs + nl |} in
+      let xf := push_fwd xs lits' nl in
       Ok (e', xf, {| bt_type := 2; bt_last := false; bt_csize := lenN src; bt_rsize := x_blk xf;
                      bt_litmode := lmode; bt_litsize := lenN lits; bt_seqmodes := modes; bt_seqs := sqs |}) in
   if nbseq =? 0 then
